@@ -530,9 +530,10 @@ func checkValidateResult(r *Report, m *spModel, sr *sigRoles) {
 	}
 }
 
-func checkRoots(r *Report, m *spModel, sr *sigRoles) {
+func checkRoots(r *Report, m *spModel, sr *sigRoles) { checkRootsAs(r, m, sr, "C01.roots") }
+
+func checkRootsAs(r *Report, m *spModel, sr *sigRoles, rule string) {
 	p := m.P
-	rule := "C01.roots"
 	for _, fn := range sr.Validators {
 		a := NewAnalysis(p)
 		B := a.B
